@@ -1,3 +1,4 @@
 pub mod seqexact;
 pub mod bitsprops;
 pub mod quadprops;
+pub mod c08;
